@@ -46,7 +46,8 @@ pub enum Value {
     Ctor(Ctor<CtorName, RcValue>),
     Triv(Triv),
     VCons(ConsN<RcValue, RcValue>),
-    Proj(Proj<RcValue, usize>),
+    /// Projection of the field at `.0` from a product with `.1` components.
+    Proj(Proj<RcValue, (usize, usize)>),
     Lit(Literal),
     SemValue(SemValue),
 }
